@@ -513,13 +513,13 @@ def history(ctx, m, reqs):
                    distance_metric=tree.distance_metric)
         oc, os_, om = ELEM.get(obs["coordinates"], 9), SYS.get(obs["coordinate_system"], 9), METRIC.get(obs["distance_metric"], 9)
         diff = [n for n, a, b in (("elem", oc, ELEM[elem]), ("sys", os_, SYS[sys_]), ("metric", om, METRIC[metric])) if a != b]
-        # behaviour of the wrapper under the REQUESTED convention (one k-nearest query, Lean-judged)
+        # behaviour of the wrapper under the REQUESTED convention (k-nearest + radius query at EVERY step, Lean-judged)
         built = (oc, os_, om)
         beh = "skipped"
         if not diff:
             beh = behaviour(ctx, g, tree, r, inp)
             if beh == "fail":
-                built = (9, 9, 9)
+                built = ((ELEM[elem] + 1) % 3, os_, om)  # behaves like some other tree
         refl = ctx.driver.ask("C11.reflects", enc_req(r), oc, os_, om, *built)
         ctx.hit("handback:" + ("reflects" if refl == "1" else "stale"))
         if refl != "1":
@@ -542,8 +542,14 @@ def history(ctx, m, reqs):
 
 
 def behaviour(ctx, g, tree, r, inp):
+    """One k-nearest AND one radius query in the convention of request `r` on the wrapper just handed
+    back, both judged by the Lean spec against brute force over the element kind requested in THIS
+    call (so a wrapper that claims the kind but still answers from another kind's sklearn tree —
+    e.g. a stale resolved-tree reference after the `coordinates` setter — fails here).
+    Failures are re-labelled with a history-specific signature."""
     kind, elem, sys_, metric, recon = r
     rng = ctx.rng
+    n0 = len(ctx.failures)
     try:
         E = elem_coords(g, elem, sys_)
     except Exception as e:
@@ -555,7 +561,7 @@ def behaviour(ctx, g, tree, r, inp):
         lo, la = rng.uniform(-180, 180), math.degrees(math.asin(rng.uniform(-1, 1)))
         in_rad = rng.random() < 0.3
         q = user_query(sys_, metric, in_rad, lo, la)
-        k = min(n, rng.choice([1, 2, 3]))
+        k = min(n, rng.choice([1, 2, 3, 3]))
         cfg = (kind, sys_, metric, in_rad)
         qinp = dict(inp, op="query", k=k, in_radians=in_rad, queries=[q])
         try:
@@ -565,12 +571,70 @@ def behaviour(ctx, g, tree, r, inp):
             ctx.fail(f"C11/cache/{kind}/query-on-handback-raises/{type(e).__name__}",
                      f"a query in the requested convention on the handed-back tree raises {type(e).__name__}: {e}", qinp)
             return "fail"
-        if len(E) != getattr(tree, "_n_elements", len(E)):
-            pass
         res = judge_knn_row(ctx, cfg, E, q, k, ind[0], d[0], qinp, what="query")
+        ctx.hit("handback-knn:" + res)
         if res != "tie":
             break
-    return res
+    res2 = "tie"
+    if res != "fail":
+        for attempt in range(3):
+            lo, la = rng.uniform(-180, 180), math.degrees(math.asin(rng.uniform(-1, 1)))
+            in_rad = rng.random() < 0.3
+            q = user_query(sys_, metric, in_rad, lo, la)
+            cfg = (kind, sys_, metric, in_rad)
+            D = common.Tok(ctx.driver.ask("C11.dists", enc_cfg(*cfg), enc_floats(q), enc_els(E)))
+            D.word()
+            ds = sorted(D.floats())
+            j = rng.randrange(max(1, min(len(ds), 6)))  # a handful of elements inside
+            mid = 0.5 * (ds[j] + ds[j + 1]) if j + 1 < len(ds) else ds[j] * 1.5 + 0.1
+            rr = math.degrees(mid) if sys_ == "spherical" else mid
+            qinp = dict(inp, op="query_radius", r=rr, in_radians=in_rad, queries=[q], form="single-1d")
+            try:
+                dd, ii = call_radius(tree, q, rr, in_rad, True)
+                dsr, inds = canon_radius(dd, ii, 1, True)
+            except Exception as e:
+                ctx.fail(f"C11/cache/{kind}/query_radius-on-handback-raises/{type(e).__name__}",
+                         f"a radius query in the requested convention on the handed-back tree raises {type(e).__name__}: {e}",
+                         qinp)
+                res2 = "fail"
+                break
+            res2 = judge_radius_row(ctx, cfg, E, q, rr, inds[0], dsr[0], qinp)
+            ctx.hit("handback-radius:" + res2)
+            if res2 != "tie":
+                break
+    # failures found while walking a history get a history-specific signature
+    for f in ctx.failures[n0:]:
+        if not f["signature"].startswith("C11/cache/"):
+            f["signature"] = f"C11/cache/{kind}/handback-answers-wrongly/" + f["signature"].split("/")[1]
+            f["what"] = ("after this request history the wrapper claims the requested kind/system/metric but its answer is "
+                         "not brute force over the elements requested in the last call: " + f["what"])
+            f["clauses"] = list(f["clauses"]) + ["tree_reflects_request"]
+    if "fail" in (res, res2):
+        return "fail"
+    return "ok" if "ok" in (res, res2) else "tie"
+
+
+def kind_switch_histories(ctx, hm):
+    """element-KIND switches on one cached wrapper: same coordinate system and metric throughout, no
+    reconstruct, a k-nearest and a radius query after EVERY request.  A,B,A and A,B,C,A patterns for
+    every (tree, system, metric) of HIST (all of them in every tier) + longer random walks."""
+    import itertools
+
+    rng = ctx.rng
+    E3 = list(ELEM)
+    for kind in ("ball", "kd"):
+        for (s, mt) in HIST[kind]:
+            pats = [[a, b, a] for a, b in itertools.permutations(E3, 2)]
+            pats += [[a, b, c, a] for a, b, c in itertools.permutations(E3, 3)]
+            for _ in range(ctx.n(2, 12)):
+                L = rng.randint(4, 8)
+                w = [rng.choice(E3)]
+                while len(w) < L:
+                    w.append(rng.choice([e for e in E3 if e != w[-1]]))
+                pats.append(w)
+            for pat in pats:
+                ctx.hit("kind-switch:" + ("ABA" if len(pat) == 3 else "ABCA" if len(pat) == 4 and pat[0] == pat[3] and len(set(pat)) == 3 else "walk"))
+                history(ctx, rng.choice(hm), [(kind, e, s, mt, False) for e in pat])
 
 
 def all_reqs(kind):
@@ -650,6 +714,7 @@ def run(ctx):
     rng.shuffle(pairs)
     for a, b in pairs[: ctx.n(140, len(pairs))]:
         history(ctx, rng.choice(hm), [a, b])
+    kind_switch_histories(ctx, hm)
     allr = all_reqs("ball") + all_reqs("kd")
     for _ in range(ctx.n(40, 400)):
         L = rng.choice([3, 3, 4, 5])
